@@ -78,6 +78,41 @@ class Hoist(ast.NodeTransformer):
         return node
 
 
+class Marker(ast.NodeTransformer):
+    """insert a harmless statement at the start of every function body (after the docstring) and of every loop body"""
+    def _mk(self, ref):
+        return ast.copy_location(ast.Assign(targets=[ast.Name(id="_verif_marker", ctx=ast.Store())], value=ast.Constant(value=None)), ref)
+    def visit_FunctionDef(self, node):
+        self.generic_visit(node)
+        k = 1 if (node.body and isinstance(node.body[0], ast.Expr) and isinstance(node.body[0].value, ast.Constant) and isinstance(node.body[0].value.value, str)) else 0
+        if any(isinstance(n, (ast.Global, ast.Nonlocal)) for n in node.body):
+            return node
+        node.body.insert(k, self._mk(node.body[0]))
+        return node
+    def visit_For(self, node):
+        self.generic_visit(node)
+        node.body.insert(0, self._mk(node.body[0]))
+        return node
+
+
+class AnnAssign(ast.NodeTransformer):
+    """x = E  ->  x: object = E   for plain local names (type hints added)"""
+    def visit_FunctionDef(self, node):
+        self.generic_visit(node)
+        glob = {nm for n in ast.walk(node) if isinstance(n, (ast.Global, ast.Nonlocal)) for nm in n.names}
+        seen = set()
+        class T(ast.NodeTransformer):
+            def visit_FunctionDef(s, n): return n
+            def visit_Lambda(s, n): return n
+            def visit_Assign(s, n):
+                if len(n.targets) == 1 and isinstance(n.targets[0], ast.Name) and n.targets[0].id not in glob and n.targets[0].id not in seen:
+                    seen.add(n.targets[0].id)
+                    return ast.copy_location(ast.AnnAssign(target=n.targets[0], annotation=ast.Name(id="object", ctx=ast.Load()), value=n.value, simple=1), n)
+                return n
+        node.body = [T().visit(b) for b in node.body]
+        return node
+
+
 d = tempfile.mkdtemp(prefix="verif_ast_")
 for sub in ("molgri", "workflow"):
     shutil.copytree(os.path.join("/repo", sub), os.path.join(d, sub), ignore=shutil.ignore_patterns("__pycache__", "*.pyc"))
@@ -86,7 +121,7 @@ for dp, dn, fn in os.walk(os.path.join(d, "molgri")):
         if f.endswith(".py"):
             p = os.path.join(dp, f)
             t = ast.parse(open(p).read())
-            t = {"retvar": RetVar, "ifswap": IfSwap, "hoist": Hoist}[mode]().visit(t)
+            t = {"retvar": RetVar, "ifswap": IfSwap, "hoist": Hoist, "marker": Marker, "annassign": AnnAssign}[mode]().visit(t)
             ast.fix_missing_locations(t)
             open(p, "w").write(ast.unparse(t) + "\n")
 print(d)
